@@ -81,6 +81,10 @@ class Engine:
         self.fresh_id = 0
         self.deadline = deadline
         self.axioms = []                # z3 Bool facts valid on every path (stub contracts)
+        self.fallback = False           # second solver (cvc5) when z3 answers unknown
+        self.fast_timeout_ms = 500
+        self.n_fallback_calls = 0
+        self.last_model = None
         self.results = []
 
     # ---- symbols ----------------------------------------------------
@@ -114,6 +118,9 @@ class Engine:
             self.r_apps = []      # applications of the rounding function R (real-float model)
             self.pw_apps = []     # applications of the pow stub
             self.path_tables = set()
+            self.r_copy = 0
+            self.r_copy_index = {}
+            self.r_copy_apps = {}
             self.overapprox_used = False   # a stub chose a value from a sound over-approximation on this path
             res = PathResult()
             res.pid = self.n_paths
@@ -143,10 +150,22 @@ class Engine:
     # ---- decisions --------------------------------------------------
     def _check(self, *assumptions):
         t = time.time()
-        r = self.solver.check(*assumptions)
-        self.solver_time += time.time() - t
+        self.last_model = None
+        if self.fallback and self.fast_timeout_ms:
+            self.solver.set('timeout', self.fast_timeout_ms)
+        r = str(self.solver.check(*assumptions))
+        if r == 'sat':
+            self.last_model = self.solver.model()
         self.n_solver_calls += 1
-        return str(r)
+        if r == 'unknown' and self.fallback:
+            # z3 gives up quickly on some mixed integer/real queries with uninterpreted functions that cvc5 decides in a
+            # second: hand the same assertions to cvc5 as SMT-LIB text
+            from . import cvc5_backend
+            r, m = cvc5_backend.check(self.solver.assertions(), assumptions, self.solver_timeout_ms)
+            self.last_model = m
+            self.n_fallback_calls += 1
+        self.solver_time += time.time() - t
+        return r
 
     def add(self, c):
         """Add a constraint to the path condition (assumption of the harness or
@@ -244,11 +263,31 @@ class Engine:
                 ob.status = 'unsat'
             elif r == 'sat':
                 ob.status = 'sat'
-                ob.model = self.solver.model()
+                ob.model = self.last_model
             else:
                 ob.status = 'unknown'
         finally:
             self.solver.pop()
+
+    def resolve(self, ob, extra):
+        """decide an obligation again under additional constraints (used to exclude recorded known findings);
+        returns (status, model)"""
+        s = z3.Solver()
+        s.set('timeout', self.solver_timeout_ms)
+        for a in self.axioms:
+            s.add(a)
+        for c in ob.pc:
+            s.add(c)
+        for c in extra:
+            s.add(c)
+        s.add(z3.Not(ob.prop))
+        saved = self.solver
+        self.solver = s
+        try:
+            r = self._check()
+            return r, self.last_model
+        finally:
+            self.solver = saved
 
     def model(self):
         """A model of the current path condition (reachability witness) or None."""
@@ -256,7 +295,7 @@ class Engine:
         try:
             r = self._check()
             if r == 'sat':
-                return self.solver.model()
+                return self.last_model
             if r == 'unsat':
                 return False
             return None
